@@ -27,14 +27,23 @@ Lemma go_echo mgrs r st :
 Proof. apply echo. exact go_wf. Qed.
 
 Lemma go_no_false_success mgrs r o :
-  (o = OPanic \/ exists st, o = ORet st true) ->
-  forallb (fun e => negb (is_respond e)) (process go_dispatch mgrs r o) = true.
+  (o = OPanic \/ exists st, o = ORet st true /\ success_status (VN st) = false) ->
+  forall resp i x b s rc, In (Respond resp i x b s rc) (process go_dispatch mgrs r o) ->
+    success_status s = false /\ rc = 0%N.
 Proof. apply no_false_success. exact go_wf. Qed.
+
+Lemma go_at_most_one_response mgrs r o :
+  (length (filter is_respond (process go_dispatch mgrs r o)) <= 1)%nat.
+Proof. apply at_most_one_response. exact go_wf. Qed.
+
+Lemma go_panic_no_response mgrs r :
+  forallb (fun e => negb (is_respond e)) (process go_dispatch mgrs r OPanic) = true.
+Proof. apply panic_no_response. exact go_wf. Qed.
 
 Lemma go_respond_only_truthful mgrs r o resp i x b s rc :
   In (Respond resp i x b s rc) (process go_dispatch mgrs r o) ->
-  exists st, o = ORet st false /\ s = VN st /\ i = VZ (r_id r) /\ x = VN (r_xid r) /\ b = VZ (r_branch r)
-             /\ resp = resp_of (r_code r) /\ rc = 1%N.
+  exists st failed, o = ORet st failed /\ s = VN st /\ i = VZ (r_id r) /\ x = VN (r_xid r) /\ b = VZ (r_branch r)
+             /\ resp = resp_of (r_code r) /\ rc = (if failed then 0 else 1)%N.
 Proof. apply respond_only_truthful. exact go_wf. Qed.
 
 Lemma go_independent mgrs (s s' : stream) out out' :
